@@ -43,6 +43,6 @@ def initSt (c : Chain) : St :=
 def optimize (c : Chain) : Chain :=
   let n := c.length
   let fin := ((List.range (n - 1)).filter (0 < ·)).foldl (step n) (initSt c)
-  (c.zipIdx.filter fun p => !fin.remove.contains p.2).map (·.1)
+  (List.range n).filterMap fun i => if fin.remove.contains i then none else some (at' c i)
 
 end P.OptX
